@@ -114,6 +114,9 @@ func c02Concrete(kind string, c c02Content) map[string]any {
 			o["items"] = r
 		case "schemas:allOf", "schemas:anyOf", "schemas:oneOf":
 			o[ch.Site] = []any{r}
+		case "schemas:discriminator.mapping":
+			o["oneOf"] = []any{map[string]any{"type": "object"}}
+			o["discriminator"] = map[string]any{"propertyName": "t", "mapping": map[string]any{"k": ch.Ref}}
 		case "schemas:not":
 			o["not"] = r
 		case "schemas:additionalProperties":
